@@ -77,7 +77,7 @@ def option_sets(tier, full=False):
             ['-p', '-m', '-g', '-d', 'gnu-ld', '-f', '1', '-t', '4', '-c', '-r', 'REF'], ['-t', '4', '-g']]
 
 
-NAME_ALPHABET = [b'a', b'_', b'__', b'X', b'X41', b'a b', b'a-b', b'a"b', b'a\\b', b'%s%n', b'*/', b'\xc3\xa9', b'\xe2\x82\xac', b'\xf0\x9f\x98\x80', b'\x80', b'\xff\xfe',
+NAME_ALPHABET = [b'a', b'_', b'__', b'X', b'X41', b'a b', b'a-b', b'a_$_b', b'f_._g', b'x_X_y', b'a"b', b'a\\b', b'%s%n', b'*/', b'\xc3\xa9', b'\xe2\x82\xac', b'\xf0\x9f\x98\x80', b'\x80', b'\xff\xfe',
                  b'n' * 255, b'n' * 300, b'\xc3\xa9' * 150, b'q"' * 2500]
 
 
